@@ -57,16 +57,19 @@ ASSUME \A c \in Cases : c.nc = "private" /\ ~c.cfg.all /\ c.cfg.prefix # "empty"
 \* hook-less wrapper that forwards unknown attributes to a hooked object (the configuration decides, and the inner
 \* object's hooks are not consulted)
 HookKinds == {"ownhooks", "service", "restricted", "class_of_hooked", "forwarder"}
-HookCases == [kind : HookKinds, op : {"get", "set", "del"}, listed : BOOLEAN, enabled : BOOLEAN]
+\* w: how the restricted view's write list was given - its own list, left out (then the read list serves), or explicitly empty
+\* (a read-only view); listed: the name is on the list that governs the operation (for an empty write list: on the read list)
+HookCases == [kind : HookKinds, op : {"get", "set", "del"}, listed : BOOLEAN, enabled : BOOLEAN, w : {"given", "default", "empty"}]
 DecideHook(h) ==
     CASE h.kind = "ownhooks" -> IF h.listed THEN {"Hook"} ELSE {"AttributeError"}
       [] h.kind = "service" -> IF h.op = "get" THEN {"Config"} ELSE {"AttributeError"}
       [] h.kind = "restricted" -> IF h.op = "del" THEN {"AttributeError"}
+                                  ELSE IF h.op = "set" /\ h.w = "empty" THEN {"AttributeError"}
                                   ELSE IF h.listed THEN {"Underlying"} ELSE {"AttributeError"}
       [] h.kind \in {"class_of_hooked", "forwarder"} -> {"Config"}
 ExportHooks == IF "OUT_FILE2" \in DOMAIN IOEnv
                THEN ndJsonSerialize(IOEnv.OUT_FILE2, SetToSeq({[kind |-> h.kind, op |-> h.op, listed |-> h.listed,
-                                                                 enabled |-> h.enabled, allowed |-> DecideHook(h)] : h \in HookCases}))
+                                                                 enabled |-> h.enabled, w |-> h.w, allowed |-> DecideHook(h)] : h \in HookCases}))
                ELSE TRUE
 ASSUME ExportHooks
 
